@@ -86,6 +86,20 @@ def run(chk: core.Check, tier: str, seed: int) -> None:
         r = impl.rec_errpos(jp, q)
         if r is not None:
             recs.append(r)
+    # user-registered functions (a zero-parameter one, one- and two-parameter ones) called with every wrong number and kind of arguments:
+    # the rejection must identify a position like any other
+    from .. import probes  # noqa: PLC0415
+    usigs = [("now", [], "V"), ("f0", [], "L"), ("f1", ["V"], "L"), ("g1", ["V"], "V"), ("n2", ["N", "V"], "N"), ("l2", ["L", "L"], "L")]
+    uenv = probes.make_env(jp, usigs, [])
+    uargs = ["@.a", "1", "'x'", "@.*", "@.a == 1", "g1(@.a)", "now()", "(@.a)", "!@.a", "@..a"]
+    for name, params, ret in usigs:
+        for n in range(0, 4):
+            for _ in range(3 if n else 1):
+                call = name + "(" + ", ".join(rng.choice(uargs) for _ in range(n)) + ")"
+                for q in (f"$[?{call}]", f"$[?{call} > 1]", f"$.a\n[?!{call} || @.b]", f"$[?count({call}) == 1]", f"$[?\n {call} == {call}]"):
+                    r = impl.rec_errpos(jp, q, env=uenv)
+                    if r is not None:
+                        recs.append(r)
     for r in recs:
         if 10 in r["q"]:
             chk.nontrivial.add(tuple(r["q"]))
